@@ -195,7 +195,11 @@ func runReal(input string) string {
 		go c.loop()
 	}
 	eng := engine.New(zap.NewNop(), metrics, conf)
-	ctx, cancel := context.WithTimeout(context.Background(), 15*time.Second)
+	limit := 15 * time.Second
+	if v := atoi(m["__tmo"]); v > 0 {
+		limit = time.Duration(v) * time.Millisecond
+	}
+	ctx, cancel := context.WithTimeout(context.Background(), limit)
 	defer cancel()
 	if c != nil {
 		// controlled runs use instantaneous profiles of a few tokens: (tokens + instances) iterations of at most 7 logged
@@ -592,6 +596,19 @@ func main() {
 		fmt.Fprintln(os.Stderr, len(ins), done)
 		return
 	}
+	// build the instrumented worker before any case is timed (its `go build` may take a while on a cold cache)
+	for k := 1; k < len(os.Args); k++ {
+		if !strings.HasPrefix(os.Args[k], "-") {
+			continue
+		}
+		a := strings.TrimLeft(os.Args[k], "-")
+		if a == "repo" && k+1 < len(os.Args) {
+			drv.RepoDir = os.Args[k+1]
+		} else if strings.HasPrefix(a, "repo=") {
+			drv.RepoDir = strings.TrimPrefix(a, "repo=")
+		}
+	}
+	instrumentedWorker()
 	drv.Main(&drv.Prop{
 		ID: "C03", Gen: gen, Run: run, Workers: 10, Timeout: 60 * time.Second,
 		Class: func(in, obs string) string {
@@ -646,6 +663,6 @@ func main() {
 			c += "/" + how + "/" + what
 			return c
 		},
-		Rule: "real engine.Engine, one pool (some engines with 2-3 pools sharing the counters): matrix instances x shared/per-instance x tokens x ammo bound x discard_overflow with random profile shape (once/const/composite/line/step), overdue tokens, shot duration, startup (once/ramp), provider (mock/real JSON DecodeProvider+AmmoQueue/real Num) and aggregator (mock/real phout); random cells; paced profiles with a startup ramp that is still running when ammo ends; seeded controlled scheduling (random/sticky/lock-step choice of the next instance operation); exhaustive enumeration of all operation interleavings of 2-instance pools with <=1 token (larger ones up to a cap); all schedules with <=1 (quick) / <=2 (thorough) preemptions of 2-4 instance pools; non-trivial = at least one event logged; distinct input lines",
+		Rule: "real engine.Engine, one pool (some engines with 2-3 pools sharing the counters): matrix instances x shared/per-instance x tokens x ammo bound x discard_overflow with random profile shape (once/const/composite/line/step), overdue tokens, shot duration, startup (once/ramp), provider (mock/real JSON DecodeProvider+AmmoQueue/real Num) and aggregator (mock/real phout); random cells, some with a fault plan (the k-th Shoot panics); paced profiles with a startup ramp that is still running when ammo ends; seeded controlled scheduling (random/sticky/lock-step choice of the next instance operation), half of it with the goroutine that starts the instances as one more controlled participant (sctl); the same on a worker built from the same source with scheduling points inside the schedule's Next/Left (fine: an instance can be parked between the atomic operations of one call); exhaustive enumeration of all operation interleavings of 2-instance pools with <=1 token at both granularities and with the starter (larger ones up to a cap); all schedules with <=1 (quick) / <=2 (thorough) preemptions of 2-4 instance pools; non-trivial = at least one event logged; distinct input lines",
 	})
 }
